@@ -200,6 +200,61 @@ theorem chkLate_none {m : Mon} {s : St} (mc : MonCalls m s) (i : Inv4 s) : chkLa
       have := mc.ctxd n c hc hctx
       simp [resTok, errTok, List.contains_iff_mem, this]
 
+/-! ### C01: nothing registered after the reader failed -/
+
+theorem evOf_rx {l : Label} (h : evOf l = .rx) : l = .rx := by
+  cases l with
+  | read m => cases m <;> simp [evOf] at h
+  | w1 w => cases w <;> simp [evOf] at h
+  | rx => rfl
+  | _ => simp [evOf] at h
+
+theorem book_rxSeen_or (m : Mon) (p : Obs) (e : Ev) (h : (m.book p e).rxSeen = true) : m.rxSeen = true ∨ e = .rx := by
+  cases e with
+  | rx => exact Or.inr rfl
+  | wret w out =>
+    left
+    simp only [Mon.book] at h
+    cases w <;> simp only [] at h <;> (repeat' (split at h)) <;> first | exact h | (simpa [modR] using h)
+  | a1 r =>
+    left
+    simp only [Mon.book] at h
+    repeat' (split at h)
+    all_goals first | exact h | (simpa [modR] using h)
+  | k1 id =>
+    left
+    simp only [Mon.book] at h
+    repeat' (split at h)
+    all_goals first | exact h | (simpa [modR] using h)
+  | a2 r =>
+    left
+    simp only [Mon.book] at h
+    repeat' (split at h)
+    all_goals first | exact h | (simpa [modR] using h)
+  | _ => left; simpa [Mon.book, modR] using h
+
+theorem monrx_step {m : Mon} {s s' : St} {l : Label} {p : Obs} (R : MonRx m s) (h : step s l = some s') :
+    MonRx (m.book p (evOf l)) s' := by
+  refine ⟨fun hs => ?_, rxInv_step h R.none⟩
+  have h' := h
+  simp only [step, Option.map_eq_some_iff] at h'
+  obtain ⟨s0, h0, rfl⟩ := h'
+  rw [readErr_settle]
+  rcases book_rxSeen_or m p (evOf l) hs with hm | he
+  · exact readErr_mono_step0 h0 (Or.inl (R.seen hm))
+  · exact readErr_mono_step0 h0 (Or.inr (evOf_rx he))
+
+theorem monrx_mark {m : Mon} {s : St} (R : MonRx m s) (o : Obs) : MonRx { m.mark o with prev := o } s :=
+  ⟨R.seen, R.none⟩
+
+theorem chkRegAfterRx_none {m : Mon} {s : St} (R : MonRx m s) : chkRegAfterRx m (obsOf s) = none := by
+  unfold chkRegAfterRx
+  by_cases hr : m.rxSeen = true
+  · have hoc : s.outCalls = [] := R.none (R.seen hr)
+    have : (obsOf s).oc.isEmpty = true := by simp [obsOf, sortNat, sortBy_isEmpty, hoc]
+    simp [this]
+  · simp [hr]
+
 /-! ### requests: looking up the model's side of a monitor entry -/
 
 theorem metas_len {s : St} (i : Inv4 s) : s.metas.length = s.cores.length := by
@@ -490,16 +545,18 @@ theorem monrel_step {m : Mon} {s s' : St} {l : Label} (R : MonRel m s) (i : Inv4
   have hp := R.prev
   have mc1 : MonCalls (m.book m.prev (evOf l)) (settle s0) := moncalls_step R.calls i (prev_done hp) h
   have mr1 : MonReqs (m.book m.prev (evOf l)) (settle s0) := monreqs_settle (monreqs_step0 R.reqs i (prev_sd hp) h0)
-  refine ⟨?_, ?_, ?_, ?_⟩
+  have mx1 : MonRx (m.book m.prev (evOf l)) (settle s0) := monrx_step R.rx h
+  refine ⟨?_, ?_, ?_, ?_, ?_⟩
   · show chkAll (m.book m.prev (evOf l)) m.prev (obsOf (settle s0)) (evOf l) = none
     unfold chkAll
     rw [chkFinal_none hp h, chkOwn_none mc1 i', chkPanic_none, chkBlocked_none mc1 i', chkLate_none mc1 i',
-      chkAnswer_none mr1 i', chkOrder_none hp R.reqs i h0, chkCancelX_none mr1 i', chkEv_none hp i h mr1 i',
+      chkRegAfterRx_none mx1, chkAnswer_none mr1 i', chkOrder_none hp R.reqs i h0, chkCancelX_none mr1 i', chkEv_none hp i h mr1 i',
       chkTc_none i', chkOd_none i', chkClosedIdle_none hp h, chkDoneIdle_none i', chkLateDispatch_none mr1 i']
     rfl
   · exact Or.inl rfl
   · exact moncalls_mark mc1 _
   · exact monreqs_mark mr1
+  · exact monrx_mark mx1 _
 
 /-- No clause fires on the model's own observation trace, from any related pair of states. -/
 theorem runMonFrom_traceFrom (ls : List Label) : ∀ (m : Mon) (s : St), MonRel m s → Inv4 s →
